@@ -966,6 +966,28 @@ def tgt(n: size, k: index, x: f32[n]):
         if k < n:
             x[k] = 1.0
 ''',
+    "extern-arg-read-oob": '''
+@proc
+def tgt(x: f32[4], y: f32[4]):
+    x[0] = relu(y[100])
+''',
+    "extern-arg-read-edge": '''
+@proc
+def tgt(n: size, x: f32[n], y: f32[n]):
+    for i in seq(0, n):
+        x[i] = select(y[i], x[i], 1.0, y[i + 1])
+''',
+    "extern-arg-read-ok": '''
+@proc
+def tgt(n: size, x: f32[n], y: f32[n + 1]):
+    for i in seq(0, n):
+        x[i] = select(y[i], x[i], 1.0, y[i + 1])
+''',
+    "window-to-dense-param": '''
+@proc
+def tgt(n: size, y: [f32][n, 4]):
+    dense2(n, y)
+''',
     "strided-window-arg": '''
 @proc
 def tgt(n: size, a: [f32][n, 4], y: f32[n]):
